@@ -41,6 +41,14 @@ import Driver.Util
         <file> = path,orig,fmt,target,openable   (path / orig hex; fmt hex, "!" = does not parse;
                  target / openable 0|1)
       -> err=<0|1> diff=<0|1> files=<path>:<content>;…   (hex)
+    fmts stdout|file|dir|write <old> <sfile>;<sfile>;…   `buf format` to stdout / `-o x.proto` /
+                 `-o dir` / `-w` on SUMMARIES of the contents (<summ> = length:hash, `Summ`)
+        <old> = summary of what the `-o` file held; <sfile> = path,orig,fmt,target,openable
+                 (path hex; orig a summary; fmt a summary, "!" = does not parse)
+      -> err=<0|1> out=<summ>                      (stdout, file)
+         err=<0|1> files=<path>:<summ>;…           (dir: the files written; write: every file)
+    fmtc stdout|file <old> <file>;<file>;…         the same on the contents (<file> as for fmtw, <old> hex)
+      -> err=<0|1> out=<content>   (hex)
 -/
 namespace Driver.C20
 open BufModel.Annot Driver
@@ -217,6 +225,50 @@ def handleFmtW (s : String) : String :=
       ";".intercalate (r.1.map fun pc => encS pc.1 ++ ":" ++ encS pc.2)
   | none => "bad-op"
 
+def decSumm (s : String) : Option Summ :=
+  match s.splitOn ":" with
+  | [l, h] => do
+    let l ← l.toNat?
+    let h ← h.toNat?
+    some ⟨l, h⟩
+  | _ => none
+
+def encSumm (s : Summ) : String := toString s.len ++ ":" ++ toString s.hash
+
+def decSFile (s : String) : Option SFile :=
+  match s.splitOn "," with
+  | [p, o, f, t, _w] => do
+    let p ← decStr p
+    let o ← decSumm o
+    let f ← if f = "!" then some none else (decSumm f).map some
+    let t ← decBool t
+    some { path := p, orig := o, fmt := f, target := t }
+  | _ => none
+
+def b01 (b : Bool) : String := if b then "1" else "0"
+
+def handleFmtS (sink old files : String) : String :=
+  match decSumm old, (files.splitOn ";").mapM decSFile with
+  | some old, some fs =>
+    let showFiles (r : List (Str × Summ) × Bool) : String :=
+      "err=" ++ b01 r.2 ++ " files=" ++ ";".intercalate (r.1.map fun pc => encS pc.1 ++ ":" ++ encSumm pc.2)
+    let showOut (r : Summ × Bool) : String := "err=" ++ b01 r.2 ++ " out=" ++ encSumm r.1
+    if sink = "stdout" then showOut (formatToFileS Summ.empty fs)
+    else if sink = "file" then showOut (formatToFileS old fs)
+    else if sink = "dir" then showFiles (formatToDirS fs)
+    else if sink = "write" then showFiles (formatWriteS fs)
+    else "bad-op"
+  | _, _ => "bad-op"
+
+def handleFmtC (sink old files : String) : String :=
+  match decStr old, (files.splitOn ";").mapM decWFile with
+  | some old, some fs =>
+    let showOut (r : Str × Bool) : String := "err=" ++ b01 r.2 ++ " out=" ++ encS r.1
+    if sink = "stdout" then showOut (formatToStdout fs)
+    else if sink = "file" then showOut (formatToFile old fs)
+    else "bad-op"
+  | _, _ => "bad-op"
+
 def showEffects (e : FmtEffects) : String :=
   let so := match e.stdoutDiff, e.stdoutSource with
     | false, false => "n" | true, false => "d" | false, true => "s" | true, true => "b"
@@ -260,6 +312,8 @@ def handle : List String → String
   | ["exit", "lsfiles", c] => match decCSteps c with
       | some c => showOutcome (Cmd.lsFiles c).run | none => "bad-op"
   | ["fmtw", s] => handleFmtW s
+  | ["fmts", sink, old, s] => handleFmtS sink old s
+  | ["fmtc", sink, old, s] => handleFmtC sink old s
   | ["exit", "format", m, sw, c, f, d, cp, rw, o] =>
       match decMode m, decBool sw, decCSteps c, decStep f, decBool d, decStep cp, decStep rw, decStep o with
       | some m, some sw, some c, some f, some d, some cp, some rw, some o =>
